@@ -1,6 +1,12 @@
 """Which units / harnesses carry which property.  (Obligations are selected by tag inside a unit.)
 
-k_groups: list of dicts {module, harnesses:[(name, kind)], tier}
+k_groups: list of dicts {module, harnesses:[(name, kind)], tier    'C19': {
+        'title': 'Layout-consistency validation is sound',
+        'v_units': ['layout'],
+        'k_groups': [],
+        'design_ref': 'DESIGN.md §3 C19',
+    },
+}
   kind: 'complete'  loop-free (or loops bounded by the input *type*) over the full domain of symbolic inputs
         'bounded:<what>' bounded stand-in, never counted as proved
 """
@@ -39,5 +45,11 @@ PROPS = {
              'tier': 'quick'},
         ],
         'design_ref': 'DESIGN.md §3 C13',
+    },
+    'C19': {
+        'title': 'Layout-consistency validation is sound',
+        'v_units': ['layout'],
+        'k_groups': [],
+        'design_ref': 'DESIGN.md §3 C19',
     },
 }
